@@ -10,6 +10,7 @@ use std::sync::OnceLock;
 
 use hsim::supervisor::{self, BatchOpts, CheckDef, Tier};
 
+mod dbglog;
 mod fixtures;
 mod rigs;
 
@@ -58,6 +59,9 @@ fn main() {
         Some("--replay") => {
             let p = args.get(2).expect("replay path");
             let trace = args.iter().any(|a| a == "--trace");
+            if trace && std::env::var("HV_TRACING").is_ok() {
+                dbglog::install();
+            }
             std::process::exit(supervisor::replay(def, Path::new(p), trace));
         }
         Some("--bench") => {
